@@ -18,7 +18,7 @@ import (
 type poly map[string]int64 // monomial ("" = constant, "a*b" sorted) -> coefficient
 
 func konst(k int64) poly { return poly{"": k}.norm() }
-func sym(s string) poly   { return poly{s: 1} }
+func sym(s string) poly  { return poly{s: 1} }
 
 func (p poly) norm() poly {
 	for m, c := range p {
@@ -415,7 +415,15 @@ func (it *interp) recover(filterKey *types.Func) string {
 			continue
 		}
 		if len(core.Calls(f.Body, info, func(_ *ast.CallExpr, o types.Object) bool { return o == types.Object(filterKey) })) > 0 {
-			it.keyLoop, it.preamble = f, body.List[:i]
+			it.keyLoop, it.preamble = f, append([]ast.Stmt{}, body.List[:i]...)
+			// single-assignment locals introduced after the key loop (e.g. a
+			// `lead := cmd.firstkey - 1` used by the copy-out phase) are part of
+			// the straight-line integer environment as well
+			for _, later := range body.List[i+1:] {
+				if as, ok := later.(*ast.AssignStmt); ok && as.Tok == token.DEFINE && len(as.Lhs) == 1 && len(as.Rhs) == 1 {
+					it.preamble = append(it.preamble, as)
+				}
+			}
 			break
 		}
 	}
